@@ -16,14 +16,15 @@ PY = sys.executable
 
 
 def model_check(ctx, module, name, constants, invariants=(), properties=(), view="View", dump=False, workers=16,
-                xmx="8g", timeout=1500, constraint=None, spec="Spec", coverage=False):
+                xmx="8g", timeout=1500, constraint=None, spec="Spec", coverage=False, env=None):
     wd = ctx.sub("mc-" + name)
     cfg = os.path.join(wd, name + ".cfg")
     tlc.write_cfg(cfg, spec=spec, constants=constants, invariants=invariants, properties=properties,
                   view=view if view else None, constraint=constraint)
     dot = os.path.join(wd, name + ".dot") if dump else None
     try:
-        res = tlc.run_mc(module, cfg, wd, workers=workers, xmx=xmx, timeout=timeout, dump_dot=dot, coverage=coverage)
+        res = tlc.run_mc(module, cfg, wd, workers=workers, xmx=xmx, timeout=timeout, dump_dot=dot, coverage=coverage,
+                         env=env)
     except tlc.TLCBroken as e:
         raise Broken(str(e))
     if res.violated or not res.ok:
@@ -109,7 +110,7 @@ class ReplayStats(object):
 
 def replay_validate(ctx, name, driver_mod, driver_args, behaviours, trace_module, trace_constants, invariants=(),
                     jobs=8, drv_timeout=1500, classify=None, env=None, trace_cfg_extra=None, max_rej_per_chunk=2,
-                    max_confirm=6, seed_base=None):
+                    max_confirm=6, seed_base=None, rerun=True):
     """behaviours: list of lists of labels.  driver command:
          python -m <driver_mod> <lib> <behaviours.json> <out.ndjson> <workdir> <seed> <driver_args...>
        (driver_args[0] must be the library path).  classify(rej) may turn a confirmed rejection into a known finding:
@@ -203,6 +204,10 @@ def replay_validate(ctx, name, driver_mod, driver_args, behaviours, trace_module
                 if a <= r.matched < b:
                     bad = (a, b, bi)
                     break
+            if bad is None and not execs_c:
+                # nothing but the end marker: the process died before its first execution wrote anything
+                execs_c = [(0, len(lines_c), 0)]
+                bad = execs_c[0]
             if bad is None:
                 raise Broken("cannot locate rejected event %d in %s" % (r.matched, cur))
             a, b, bi = bad
@@ -246,7 +251,9 @@ def replay_validate(ctx, name, driver_mod, driver_args, behaviours, trace_module
     for rj in st.rejected:
         if len(confirmed) >= max_confirm:
             break
-        if rj["behaviour"] is None:
+        if rj["behaviour"] is None or not rerun:
+            # (rerun=False: schedules that cannot be re-imposed - free-running threads; the recorded trace was
+            #  validated by TLC and is the evidence)
             confirmed.append(rj)
             continue
         cw = os.path.join(wd, "re%d" % len(confirmed + [0]) + "-%d" % rj["index"])
